@@ -1425,7 +1425,7 @@ package bpmn
 // token exactly once with all outgoing flows and deactivates the node; a non-satisfying one releases nobody; an event
 // arriving while the node is not activated is dropped without any effect.
 //@ func (*catchEvent).run
-//@   prop C11 C14 C07
+//@   prop C11 C14 C07 C06
 //@   flag spawnpre
 //@   ensures [sender-released-exactly-once-on-exit @C07] count(Call, code("tracing|ISenderHandle.Done")) == old(count(Call, code("tracing|ISenderHandle.Done"))) + 1
 //@   requires evt.wiring != nil && evt.satisfier != nil
